@@ -426,8 +426,20 @@ def case_crossable(rng):
     prim = _prim(rng)
     sc = rng.random() < 0.5
 
+    b0, extra, neg = (0, 0, False) if rng.random() < 0.4 else (rng.randint(0, 3), rng.randint(0, 2), rng.random() < 0.4)
+
     def build(s):
-        fr = BoolGridFrame(s, H, W)
+        for _ in range(b0):
+            s.bool_var()
+        if neg:
+            # same variables in the same allocation order, every entry negated (frames of expressions)
+            hz = s.bool_array((H + 1, W))
+            vt = s.bool_array((H, W + 1))
+            fr = BoolGridFrame(s, H, W, horizontal=~hz, vertical=~vt)
+        else:
+            fr = BoolGridFrame(s, H, W)
+        for _ in range(extra):
+            s.bool_var()
 
         def call():
             if sc and rng.random() < 0.5:
@@ -438,8 +450,9 @@ def case_crossable(rng):
             return [pexpr(x) for x in p.data] + [pexpr(x) for x in c.data]
         return call
     real = graphs.capture(build)
-    line = sx(["crossable", H, W, sc, prim])
-    return real, line, {"fn": "connected_crossable", "H": H, "W": W, "single_cycle": sc, "prim": prim}
+    line = sx(["crossable", H, W, sc, prim]) if (b0, extra, neg) == (0, 0, False) else sx(["crossable2", H, W, sc, prim, b0, extra, neg])
+    return real, line, {"fn": "connected_crossable", "H": H, "W": W, "single_cycle": sc, "prim": prim,
+                        "frame_offset": b0, "later_vars": extra, "negated_entries": neg}
 
 
 def case_vgborders_frame(rng):
